@@ -1,7 +1,7 @@
 import Iscp.Model.Corr
 import Driver.Util
 /- topic `wire` (C06, C07 routing, C12 typed read path)
-   req <caller> <kind> [sid] [alias] · resp <id> <rkind> [rsid] [ralias] · cancel <caller>
+   req <caller> <kind> [sid] [alias] · resp <id> <rkind> [rsid] [ralias] [refused] · cancel <caller>
    subdps a · subdpsu a · subackc a · submeta a n · ack a tok · chunk a tok · chunku a tok · ackc a tok · meta a n tok
    drainack a · draindps a · draindpsu a · drainackc a · drainmeta a n -/
 namespace Driver.Wire
@@ -69,12 +69,14 @@ def stepW (w : Wire) (line : String) : Wire × String :=
   | "resp" :: id :: rk :: rest =>
     (match parseRKind rk with
     | some rk =>
+      let accepted := rest.getLast? != some "refused"
+      let rest := if accepted then rest else rest.dropLast
       let (rsid, ral) := match rest with
         | [a, b] => (nat a, nat b)
         | [a] => (0, nat a)
         | _ => (0, 0)
       let isSentinel := (w.c.waiting.any fun x => x.caller = 99 ∧ x.id = nat id ∧ alGet (nat id) w.c.pending = some 99)
-      let (w', o) := wresp w (nat id) rk rsid ral
+      let (w', o) := wresp w (nat id) rk rsid ral accepted
       (if isSentinel then w' else barrier w', showOut o)
     | none => (w, "bad-op"))
   | ["cancel", c] => let (w', o) := wcancel w (nat c); (w', showOut o)
